@@ -236,7 +236,7 @@ def judge(rec, design, meta, sample=False, reuse=None):
 
 def run(ctx, rec):
     rng = ctx.rng("c10")
-    n = 3000 if ctx.quick else 6000
+    n = 3000 if ctx.quick else 16000
     for k in range(n):
         if ctx.quick:
             maxdepth, fan = rng.choice([(1, 2), (2, 2), (2, 2)])
